@@ -94,6 +94,9 @@ type Fx struct {
 	binders  int      // >0 while evaluating under a quantifier
 	bound    []string // names of the bound variables in scope
 	asserted map[string]bool
+	topFrame   *Frame
+	entryState *State
+	allowed    map[string]*frameAllow // nil: the function has no contract (no frame checking)
 }
 
 func (fx *Fx) mentionsBound(t string) bool {
